@@ -194,6 +194,10 @@ macro_rules! generate_method_for_document_type {
         .map_err(Error::VerificationMethodConstructionError)?
         .to_owned();
 
+      // Removing the method again (should the key id insertion below fail) would also remove relationship references
+      // with its id that the document carried before, so the document is restored from a copy instead.
+      let document_before_insertion = document.clone();
+
       // Insert method into document and handle error upon failure.
       if let Err(error) = document
         .insert_method(method, scope)
@@ -208,8 +212,8 @@ macro_rules! generate_method_for_document_type {
         .await
         .map_err(Error::KeyIdStorageError)
       {
-        // Remove the method from the document as it can no longer be used.
-        let _ = document.remove_method(&method_id);
+        // Take the method out of the document again as it can no longer be used.
+        *document = document_before_insertion;
         return Err(try_undo_key_generation(storage, &key_id, error).await);
       }
 
